@@ -291,6 +291,21 @@ theorem model_recover_rdec (s : St) (p o : Int) :
 
 /-- non-vacuity: a record inside the window reaches the emitting branch -/
 example : rdec true 10 20 15 50 = .emit false := by decide
+
+/-- processEvent of the main consumer, translated: every record it hands on is sent with `Recovery: false` — for every
+environment the only send is the one below — ; an assignment starts the retrying assignment on another goroutine, a
+revocation is handled at once on the event loop -/
+theorem translated_kcProcessEvent (σ : Env) :
+    let r := run Trans.kcProcessEvent σ
+    r.stuck = false ∧ r.ret = none ∧
+    (∀ c ∈ r.calls, c.1 = "send k.sendCh {Payload,Created,Recovery}" → c.2 = [σ "e.Value", σ "time.Now()", 0]) ∧
+    (("send k.sendCh {Payload,Created,Recovery}", [σ "e.Value", σ "time.Now()", 0]) ∈ r.calls ↔ σ "typeswitch#0" = 2) ∧
+    (("go k.retryAssignPartitions", [σ "e.Partitions"]) ∈ r.calls ↔ σ "typeswitch#0" = 0) ∧
+    (("k.revokePartitionAssignments", []) ∈ r.calls ↔ σ "typeswitch#0" = 1) := by
+  by_cases h0 : σ "typeswitch#0" = 0 <;> by_cases h1 : σ "typeswitch#0" = 1 <;> by_cases h2 : σ "typeswitch#0" = 2 <;>
+  by_cases h3 : σ "typeswitch#0" = 3 <;> by_cases h4 : σ "typeswitch#0" = 4 <;>
+  minigo_simp [Trans.kcProcessEvent, h0, h1, h2, h3, h4] <;> (try omega)
+
 end Translated
 
 theorem closure_unchanged : GeneratedClo.C07 = ExpectedClo.C07 := by rfl
